@@ -90,7 +90,8 @@ def run_C01(ctx):
         for _ in range(ctx.n(30, 500)):
             bs, w = pick_matrix(rng, "cbc-enc")
             key, iv = rb(rng, 16), rb(rng, ivlen(mode, bs))
-            L = rng.choice([bs, bs + 1, 2 * bs - 1, 2 * bs, 2 * bs + 1, rng.randrange(bs, (2 * w + 2) * bs + 1)])
+            L = rng.choice([bs, bs + 1, 2 * bs - 1, 2 * bs, 2 * bs + 1, (2 * w + 1) * bs + 1, (3 * w + 1) * bs + bs // 2,
+                            rng.randrange(bs, (3 * w + 2) * bs + 1)])
             m = rb(rng, L)
             ops = [f"enc {hx(m)}"] if rng.random() < 0.5 else [f"encb {hx(m)} {hx(rb_nz(rng, L))}"]
             c = Case("cts", mode, bs, w, key, iv, ops=ops)
@@ -528,14 +529,16 @@ def run_C12(ctx):
         h = res["H"][c.cid]
         if h is None:
             continue
+        def nz(l):
+            return "err" if l.startswith("err") else l
         for (i, j) in c.meta.get("pairs", []):
-            if i < len(h) and j < len(h) and h[i] != h[j]:
+            if i < len(h) and j < len(h) and nz(h[i]) != nz(h[j]):
                 ctx.violation("predicate", f"{c.mode} bs={c.bs} w={c.w}: in-place {c.ops[i].split()[0]} gives {h[i][:70]!r}, buffer-to-buffer {c.ops[j].split()[0]} gives {h[j][:70]!r}", [c], {"H": h})
                 break
         p = c.meta.get("partner")
         if p is not None:
             hp = res["H"][p.cid]
-            if hp is not None and h != hp:
+            if hp is not None and [nz(l) for l in h] != [nz(l) for l in hp]:
                 ctx.violation("predicate", f"{c.mode} bs={c.bs} w={c.w}: in-place and buffer-to-buffer runs differ", [c, p], {"H_inplace": h, "H_b2b": hp})
 
 
